@@ -98,3 +98,9 @@ Theorem c08_revert_order_is_source :
   before "atomic.AddInt64" "s.readRootsScan" l = true.
 Proof. exact DecRevert.revert_order. Qed.
 Print Assumptions c08_revert_order_is_source.
+
+From GK Require Import DecLocks.
+(* FlushRevert always terminates: the collection table's lock is never held while a StoreCallbacks hook runs *)
+Theorem c08_hooks_under_locks_are_source : hook_under_lock = ["Collection.rootDecRef"; "withAllocLocks"].
+Proof. exact DecLocks.hooks_under_locks. Qed.
+Print Assumptions c08_hooks_under_locks_are_source.
